@@ -913,7 +913,7 @@ func (c *Compiler) writeNode(node, parent *node, recv, v, vsrc string, depth int
 				return err
 			}
 			c.wl(snippet)
-			c.wl("if len(", c.fmtVnb(node, v, depth), ") > i {")
+			c.wl("if i >= 0 && len(", c.fmtVnb(node, v, depth), ") > i {")
 			if node.slct.ptr || c.isBuiltin(node.slct.typn) {
 				c.wl(nv, " := ", c.fmtVd(node, v, depth), "[i]")
 			} else {
@@ -1353,7 +1353,7 @@ func (c *Compiler) writeNodeLC(node_ *node, v, fn string, depth int) error {
 				return err
 			}
 			c.wl(snippet)
-			c.wl("if len(", c.fmtVnb(node_, v, depth), ") > i {")
+			c.wl("if i >= 0 && len(", c.fmtVnb(node_, v, depth), ") > i {")
 			if node_.slct.ptr || c.isBuiltin(node_.slct.typn) {
 				c.wl(nv, " := ", c.fmtVd(node_, v, depth), "[i]")
 			} else {
